@@ -167,7 +167,9 @@ def split_contract():
         D = M.bytes_term(ctx.args["data"])
         sq = X.fresh_seq_like("str", "pieces")
         st.assume(M.match_axioms(P, D))
-        return VSeq(sq.length, sq.elem, "str", tag=("pieces", D))
+        res = VSeq(sq.length, sq.elem, "str", tag=("pieces", D))
+        st.ghost["split_result"] = res
+        return res
 
     return guard(FnContract(
         target=f"{MBOX}::_split_mbox_messages",
@@ -575,7 +577,11 @@ def mbox_contract():
 
     def inv(lc):
         n, src, ok = lc.ex.yc_get(lc.st)
-        el = lc.seq.elem if isinstance(lc.seq, VSeq) else seq_of(lc.st, lc.seq)[1]
+        # the messages are the list _split_mbox_messages returned (however the loop walks it: directly, enumerate(), ...)
+        R = lc.st.ghost.get("split_result")
+        if R is None:
+            raise M.ShapeUnknown("the mailbox is not split by _split_mbox_messages")
+        el = R.elem
         i = lc.i
         return Conj([("count", n == i),
                      ("order", forall(i, lambda k: z3.Select(src, k) == M.SRC_MSG(M.MFB(el(k).t)), "k!mo")),
